@@ -15,7 +15,7 @@ META = {
     "kind": "graph",
     "engine": "E1 explicit-state exploration of Receiver.listen()/callback() with generated dependency graphs",
     "rule": (
-        "2 (quick) / 3 (thorough) messages of one task are processed concurrently (A=3); the task takes Context itself, "
+        "2 (quick) / 3 (thorough) messages of one task are processed concurrently (A=3); the task takes Context itself (or, in a second family, does not), "
         "an async gated dependency (the suspension point) and a probe dependency from the family {sync fn, async fn "
         "(gated), generator, async generator} x {cached, use_cache=False} x {reads Context itself, has a nested child of "
         "any of those 8 kinds that reads Context} (72 graphs, both parameter orders), plus 32 graphs in which "
@@ -94,6 +94,15 @@ def graphs() -> List[Dict[str, Any]]:
                         "nodes": {"g": {"style": "aplain", "children": [], "gate": True, "cache": True}, "p": _node(k, [], True)}})
         for k, kc in itertools.product(KINDS, KINDS):
             out.append({"roots": list(order), "task_ctx": True, "single": False,
+                        "nodes": {"g": {"style": "aplain", "children": [], "gate": True, "cache": True},
+                                  "p": _node(k, ["q"], False), "q": _node(kc, [], True)}})
+    # the task function itself does not take Context: only the (late-resolved) dependency does
+    for order in (("g", "p"), ("p", "g")):
+        for k in KINDS:
+            out.append({"roots": list(order), "task_ctx": False, "single": True,
+                        "nodes": {"g": {"style": "aplain", "children": [], "gate": True, "cache": True}, "p": _node(k, [], True)}})
+        for k, kc in itertools.product(KINDS[::2], KINDS):
+            out.append({"roots": list(order), "task_ctx": False, "single": False,
                         "nodes": {"g": {"style": "aplain", "children": [], "gate": True, "cache": True},
                                   "p": _node(k, ["q"], False), "q": _node(kc, [], True)}})
     # broker.dependency_overrides: the declared probe is a plain cached function that does not touch
